@@ -527,3 +527,79 @@ Qed.
 
 Theorem ids_inverse s c ops : ids_coherent (db_run (empty_tables s c) ops).
 Proof. apply WI_coherent. apply db_run_WI. apply WI_empty. Qed.
+
+(* ---------- the version gate ---------- *)
+
+Lemma versions_match_iff stored cur : versions_match stored cur = true <-> stored = Some cur.
+Proof.
+  destruct cur as [a b]. destruct stored as [[sv cv]|]; cbn [versions_match fst snd].
+  - rewrite andb_true_iff, !N.eqb_eq. split; [intros [-> ->]; reflexivity | intros H; inversion H; auto].
+  - split; discriminate.
+Qed.
+
+Theorem version_gate stored cur rc :
+  (open_decision stored cur rc = UseStored <-> stored = Some cur) /\
+  (stored <> Some cur -> open_decision stored cur rc = if rc then Recreate else Reject).
+Proof.
+  unfold open_decision. destruct (versions_match stored cur) eqn:E.
+  - apply versions_match_iff in E. split; [split; auto | intros H; contradiction].
+  - assert (Hn : stored <> Some cur) by (intros H; apply versions_match_iff in H; congruence).
+    split; [|reflexivity]. split; [destruct rc; discriminate | intros H; contradiction].
+Qed.
+
+(* what open() leaves the process with: the stored tables only when both versions match; otherwise empty tables
+   carrying the CURRENT versions (recreate) or an error - in neither case is anything of the file interpreted *)
+Theorem open_db_gate file cur rc :
+  match open_db file cur rc with
+  | Some t => (exists f, file = Some f /\ fst (info f) = cur /\ t = fresh_process f) \/
+              (stored_versions file <> Some cur /\ rc = true /\ t = empty_tables (fst cur) (snd cur))
+  | None => stored_versions file <> Some cur /\ rc = false
+  end.
+Proof.
+  unfold open_db. destruct (version_gate (stored_versions file) cur rc) as [G1 G2].
+  destruct (open_decision (stored_versions file) cur rc) eqn:E.
+  - assert (Hs : stored_versions file = Some cur) by (apply G1; reflexivity).
+    destruct file as [f|]; [|discriminate]. left. exists f. cbn in Hs. inversion Hs. auto.
+  - assert (Hn : stored_versions file <> Some cur) by (intros H; apply G1 in H; discriminate).
+    right. rewrite (G2 Hn) in E. destruct rc; [auto | discriminate].
+  - assert (Hn : stored_versions file <> Some cur) by (intros H; apply G1 in H; discriminate).
+    rewrite (G2 Hn) in E. destruct rc; [discriminate | auto].
+Qed.
+
+Theorem open_db_mismatch_blind file1 file2 cur rc :
+  stored_versions file1 <> Some cur -> stored_versions file2 <> Some cur ->
+  open_db file1 cur rc = open_db file2 cur rc.
+Proof.
+  intros H1 H2. unfold open_db.
+  rewrite (proj2 (version_gate _ cur rc) H1), (proj2 (version_gate _ cur rc) H2). destruct rc; reflexivity.
+Qed.
+
+(* ---------- the lock ---------- *)
+
+Lemma lock_step_le l o : (length l <= 1)%nat -> (length (lock_step l o) <= 1)%nat.
+Proof.
+  intros H. destruct o as [c|c]; cbn [lock_step].
+  - unfold build_started. destruct l; cbn [fst length] in *; lia.
+  - unfold build_complete. destruct l as [|x [|y l]]; cbn [length] in H; [cbn; lia | | lia].
+    cbn [filter]. destruct (negb (N.eqb x c)); cbn; lia.
+Qed.
+
+Lemma lock_run_le ops : forall l, (length l <= 1)%nat -> (length (fold_left lock_step ops l) <= 1)%nat.
+Proof. induction ops as [|o ops IH]; intros l H; [exact H|]. cbn [fold_left]. apply IH, lock_step_le, H. Qed.
+
+Theorem lock_excludes ops c1 c2 : In c1 (lock_run ops) -> In c2 (lock_run ops) -> c1 = c2.
+Proof.
+  unfold lock_run. pose proof (lock_run_le ops [] ltac:(cbn; lia)) as H.
+  destruct (fold_left lock_step ops []) as [|x [|y l]]; cbn [length] in H; [intros [] | | lia].
+  intros [<-|[]] [<-|[]]. reflexivity.
+Qed.
+
+Theorem lock_second_start_fails l c c' : In c' l -> build_started l c = (l, false).
+Proof. intros H. destruct l; [destruct H | reflexivity]. Qed.
+
+Theorem lock_blocks_writer l c c' t k r : In c' l -> c <> c' -> db_write l c t k r = None.
+Proof.
+  intros Hin Hne. unfold db_write, may_write.
+  destruct (forallb (N.eqb c) l) eqn:E; [|reflexivity].
+  rewrite forallb_forall in E. apply E in Hin. apply N.eqb_eq in Hin. contradiction.
+Qed.
